@@ -356,26 +356,15 @@ func c12Registry(c *Ctx, r *Report) {
 
 	// registryImpl.Names: three lintNames lists appended, sort.Strings on the result before return
 	rn := c.Method("lint", "registryImpl", "Names")
-	merged := map[string]bool{}
-	var sortCall ssa.CallInstruction
-	for _, sc := range callsTo(rn, "sort.Strings") {
-		sortCall = sc
-	}
-	var retv ssa.Value
-	for _, ret := range realReturns(rn) {
-		if len(ret.Results) == 1 {
-			retv = retVals(ret)[0]
-		}
-	}
-	// walk the append chain backwards from the returned value
-	var walk func(v ssa.Value, d int)
-	walk = func(v ssa.Value, d int) {
+	// every return of Names must be the freshly merged and sorted list
+	var walk func(v ssa.Value, d int, merged map[string]bool)
+	walk = func(v ssa.Value, d int, merged map[string]bool) {
 		if d > 10 {
 			return
 		}
 		if call, ok := v.(*ssa.Call); ok {
 			if b, ok := call.Call.Value.(*ssa.Builtin); ok && b.Name() == "append" {
-				walk(call.Call.Args[0], d+1)
+				walk(call.Call.Args[0], d+1, merged)
 				p := apath(call.Call.Args[1])
 				if lastField(strings.TrimSuffix(p, "[:]")) == "lintNames" {
 					merged[p] = true
@@ -383,12 +372,25 @@ func c12Registry(c *Ctx, r *Report) {
 			}
 		}
 	}
-	if retv != nil {
-		walk(retv, 0)
+	rets := realReturns(rn)
+	okNames := len(rets) > 0
+	detail := ""
+	for _, ret := range rets {
+		retv := retVals(ret)[0]
+		merged := map[string]bool{}
+		walk(retv, 0, merged)
+		sorted := false
+		for _, sc := range callsTo(rn, "sort.Strings") {
+			if sc.Common().Args[0] == retv && instrDominates(sc, ret) {
+				sorted = true
+			}
+		}
+		if len(merged) != 3 || !sorted {
+			okNames = false
+			detail = fmt.Sprintf("a return of Registry.Names yields %s: it must be the names of all three kinds (%d found) appended and sorted (sorted=%v) — a cached or partial list goes stale after a registration", apath(retv), len(merged), sorted)
+		}
 	}
-	sorted := sortCall != nil && retv != nil && sortCall.Common().Args[0] == retv
-	r.Check(len(merged) == 3 && sorted, "names-merge", "registryImpl.Names", rn.Pos(), "merges three lintNames lists and sorts",
-		fmt.Sprintf("Registry.Names must append the names of all three kinds (%d found) and sort the result (sorted=%v)", len(merged), sorted))
+	r.Check(okNames, "names-merge", "registryImpl.Names", rn.Pos(), "merges three lintNames lists and sorts", detail)
 	// registryImpl.Sources: three Sources() calls on distinct lookups
 	rs := c.Method("lint", "registryImpl", "Sources")
 	recvs := map[string]bool{}
